@@ -46,7 +46,17 @@ def random_droplet(rng: random.Random, lay: dict, radius0: bool = True) -> dict:
 
 
 def random_time_list(rng: random.Random, n: int) -> list:
-    style = rng.choice(["range", "int", "float", "neg", "irregular", "np", "decimal", "bigint"])
+    style = rng.choice(["range", "int", "float", "neg", "irregular", "np", "decimal", "bigint",
+                        "cross_zero", "cross_zero", "offset", "tiny"])
+    if style == "cross_zero":  # an exact zero that is not the first time
+        k = rng.randrange(n) if n else 0
+        step = rng.choice([0.5, 0.75, 1, 2, 2.5])
+        return [(i - k) * step + 0.0 for i in range(n)]
+    if style == "offset":  # late in a long run: spacing tiny relative to the time
+        t0 = rng.choice([1e6, 1e9, 123456.0])
+        return [t0 + i for i in range(n)]
+    if style == "tiny":
+        return [i * 2e-9 for i in range(n)]
     if style == "range":
         return list(range(n))
     if style == "decimal":  # not representable in binary, nor in single precision
@@ -121,14 +131,15 @@ def random_collection(rng: random.Random, kind: str | None = None, big: bool = F
     if kind == "track":
         n = count()
         return {"t": "track", "droplets": droplets(n, track=True),
-                "times": random_time_list(rng, n)}
+                "times": random_time_list(rng, n), "via": rng.choice(["ctor", "ctor", "append"])}
     n = count()
     tracks = []
     for _ in range(n):
         tlay = lay if rng.random() < 0.85 else random_layout(rng)
         m = rng.choice([0, 1, 1, 2, 3, 5])
         tracks.append({"t": "track", "droplets": droplets(m, tlay, track=True),
-                       "times": random_time_list(rng, m)})
+                       "times": random_time_list(rng, m),
+                       "via": rng.choice(["ctor", "ctor", "append"])})
     return {"t": "tracklist", "tracks": tracks}
 
 
@@ -152,10 +163,14 @@ def build(spec: dict):
 def _build_track(spec):
     import droplets as dr
 
-    tr = dr.DropletTrack()
-    for s, t in zip(spec["droplets"], spec["times"]):
-        tr.append(make_droplet(s), make_time(t))
-    return tr
+    if spec.get("via") == "append":
+        tr = dr.DropletTrack()
+        for s, t in zip(spec["droplets"], spec["times"]):
+            tr.append(make_droplet(s), make_time(t))
+        return tr
+    # constructor path: times are taken as given
+    return dr.DropletTrack([make_droplet(s) for s in spec["droplets"]],
+                           times=[make_time(t) for t in spec["times"]])
 
 
 def obj_class(spec_t: str):
